@@ -46,7 +46,7 @@ open GunYu GunYu.Psync
       theorem applied to the next connection).
     Nothing else can happen (in particular the run does not abort). -/
 theorem outcome_continue_or_full (w : World) (s : Source) (sp : SP) (c : Cache) (d : CData)
-    (hs : SourceWF s) (hc : CacheWF c) (hok : CacheOK w c d) (hag : Agree w s)
+    (hs : SourceWF s) (hc : CacheWF c) (hok : CacheOK w s c d) (hag : Agree w s)
     (hcompat : StoredCompat s sp c) (r : Result) (hr : r = run w s sp c d) :
     (∃ byte, r.delivery = .stream sp.offset byte ∧ r.mt.ps.full = false ∧
         (sp.runId = s.id1 ∨ sp.runId = s.id2) ∧
@@ -69,12 +69,8 @@ theorem outcome_continue_or_full (w : World) (s : Source) (sp : SP) (c : Cache) 
     · rw [hF.data]
   · -- continuation, cache kept
     have hcid := hK.cid
-    -- bytes of the cache's label below `latest` are the current history's
-    have hconv : ∀ n, 0 ≤ n → n < c.latest → w.hist c.runId n = w.hist s.id1 n := by
-      intro n h0 hn
-      rcases hcid with e | ⟨e, hle⟩
-      · rw [e]
-      · rw [e]; exact hag n h0 (by omega)
+    -- the cache's label was accepted by the source: what it holds is the current history
+    have hh := keep_holds hc hok hag hcid
     rcases hK.read with ⟨_, hdel, hout, hle, hlow⟩ | ⟨left, size, hrdb, _, _, hdel⟩
     · left
       refine ⟨_, hdel, hK.full, hout, ?_, ?_⟩
@@ -99,13 +95,11 @@ theorem outcome_continue_or_full (w : World) (s : Source) (sp : SP) (c : Cache) 
           | some p =>
             obtain ⟨l, rr⟩ := p
             rw [ha] at hlow; simp only at hlow
-            have h1 := hok.aof_hist; rw [ha] at h1; simp only at h1
-            have h2 := hc.aof_ok; rw [ha] at h2; simp only at h2
+            have h1 := hh.aof_hist; rw [ha] at h1; simp only at h1
             have hlat := latest_aof ha
-            rw [h1 n (by omega) (by omega)]
-            exact hconv n (by omega) (by omega)
+            exact h1 n (by omega) (by omega)
     · right
-      have h1 := hok.rdb_tok; rw [hrdb] at h1; simp only at h1
+      have h1 := hh.rdb_tok; rw [hrdb] at h1; simp only at h1
       have h2 := hc.rdb_ok; rw [hrdb] at h2; simp only at h2
       have hll : left ≤ c.latest := by
         cases ha : c.aof with
@@ -114,12 +108,11 @@ theorem outcome_continue_or_full (w : World) (s : Source) (sp : SP) (c : Cache) 
           obtain ⟨l, rr⟩ := p
           have h3 := hc.contig; rw [hrdb, ha] at h3; simp only at h3
           have h4 := hc.aof_ok; rw [ha] at h4; simp only at h4
-          rw [latest_aof ha]; omega
+          rw [latest_aof ha]
+          split at h3 <;> omega
       refine ⟨d.rdbTok, left, size, hdel, h2.2.1, h2.1, h1.1, ?_, fun h => ?_, fun _ => ⟨hK.deleted, hrdb, rfl⟩,
         fun k => ?_, ?_⟩
-      · intro n h0 hn
-        rw [h1.2 n h0 hn]
-        exact hconv n h0 (by omega)
+      · exact h1.2
       · rw [hK.full] at h; cases h
       · rw [hK.after k]; exact hrdb
       · rw [hK.data]
@@ -238,9 +231,11 @@ theorem no_cache_reuse_when_cleared (w : World) (s : Source) (sp : SP) (c : Cach
     `outcome_continue_or_full` again (no bytes of an id outside {id1,id2} ever
     enter or stay in the cache). -/
 theorem cache_consistent_after (w : World) (s : Source) (sp : SP) (c : Cache) (d : CData)
-    (hs : SourceWF s) (hc : CacheWF c) (hok : CacheOK w c d) (hag : Agree w s)
+    (hs : SourceWF s) (hc : CacheWF c) (hok : CacheOK w s c d) (hag : Agree w s)
     (k : Int) (hk : 0 ≤ k) (hbound : s.masterOff + k ≤ maxInt64) (r : Result) (hr : r = run w s sp c d) :
-    CacheWF (cacheAfter r.mt k) ∧ CacheOK w (cacheAfter r.mt k) r.data ∧ (cacheAfter r.mt k).runId = s.id1 := by
+    CacheWF (cacheAfter r.mt k) ∧ CacheOK w s (cacheAfter r.mt k) r.data ∧ (cacheAfter r.mt k).runId = s.id1 := by
+  suffices hmain : CacheWF (cacheAfter r.mt k) ∧ Holds w s.id1 (cacheAfter r.mt k) r.data ∧ (cacheAfter r.mt k).runId = s.id1 from
+    ⟨hmain.1, ⟨fun _ => hmain.2.1, fun _ => Or.inr hmain.2.1⟩, hmain.2.2⟩
   subst hr
   have hm := hs.master_nonneg
   have hsz := hs.snap_pos
@@ -258,17 +253,13 @@ theorem cache_consistent_after (w : World) (s : Source) (sp : SP) (c : Cache) (d
   · have hcid := hK.cid
     have hl0 := hK.lat_nonneg
     have hlm := hK.lat_le
-    have hconv : ∀ n, 0 ≤ n → n < c.latest → w.hist c.runId n = w.hist s.id1 n := by
-      intro n h0 hn
-      rcases hcid with e | ⟨e, hle⟩
-      · rw [e]
-      · rw [e]; exact hag n h0 (by omega)
+    have hh := keep_holds hc hok hag hcid
     rw [hK.after k, hK.data]
     obtain ⟨be, rid, rdb, aof⟩ := c
     obtain ⟨ha, hrr, hcg, hlab⟩ := hc
-    obtain ⟨oa, ot⟩ := hok
+    obtain ⟨oa, ot⟩ := hh
     rcases rdb with _ | ⟨left, size⟩ <;> rcases aof with _ | ⟨l, rr⟩ <;>
-      simp only [Cache.latest] at hl0 hlm hconv ha hrr hcg oa ot ⊢
+      simp only [Cache.latest] at hl0 hlm ha hrr hcg oa ot ⊢
     · omega
     · refine ⟨⟨?_, ?_, ?_, ?_⟩, ⟨?_, ?_⟩, by first | rfl | trivial⟩
       · simp only; omega
@@ -282,7 +273,7 @@ theorem cache_consistent_after (w : World) (s : Source) (sp : SP) (c : Cache) (d
         by_cases hn : rr ≤ n
         · simp only [hn, ↓reduceIte]; congr 1; omega
         · simp only [hn, ↓reduceIte]
-          rw [oa n h1 (by omega)]; exact hconv n (by omega) (by omega)
+          exact oa n h1 (by omega)
       · simp
     · refine ⟨⟨?_, ?_, ?_, ?_⟩, ⟨?_, ?_⟩, by first | rfl | trivial⟩
       · by_cases h : k > 0 <;> simp [h] <;> omega
@@ -296,11 +287,12 @@ theorem cache_consistent_after (w : World) (s : Source) (sp : SP) (c : Cache) (d
         simp only [h1, ↓reduceIte]; congr 1; omega
       · simp only
         refine ⟨ot.1, fun n h0 hn => ?_⟩
-        rw [ot.2 n h0 hn]; exact hconv n h0 hn
-    · refine ⟨⟨?_, ?_, ?_, ?_⟩, ⟨?_, ?_⟩, by first | rfl | trivial⟩
+        exact ot.2 n h0 hn
+    · have hcg' : left ≤ l := by split at hcg <;> omega
+      refine ⟨⟨?_, ?_, ?_, ?_⟩, ⟨?_, ?_⟩, by first | rfl | trivial⟩
       · simp only; omega
       · simp only; omega
-      · simp only; omega
+      · exact hcg
       · intro h; rcases h with h | h
         · exact absurd h hs.id1_ne
         · exact absurd h hs.id1_nq
@@ -309,10 +301,10 @@ theorem cache_consistent_after (w : World) (s : Source) (sp : SP) (c : Cache) (d
         by_cases hn : rr ≤ n
         · simp only [hn, ↓reduceIte]; congr 1; omega
         · simp only [hn, ↓reduceIte]
-          rw [oa n h1 (by omega)]; exact hconv n (by omega) (by omega)
+          exact oa n h1 (by omega)
       · simp only
         refine ⟨ot.1, fun n h0 hn => ?_⟩
-        rw [ot.2 n h0 hn]; exact hconv n h0 (by omega)
+        exact ot.2 n h0 hn
   · have h0 := hC.off_nonneg
     have hle := hC.off_le
     rw [hC.after k, hC.data]
@@ -357,8 +349,8 @@ theorem w0_agree : Agree w0 s0 := by
 
 def dOf (id : Id) (left : Int) : CData := ⟨fun n => w0.hist id n, (id, left)⟩
 
-theorem dOf_ok (be : Backend) (id : Id) (rdb : Option (Int × Int)) (aof : Option (Int × Int)) (left : Int)
-    (h : ∀ p, rdb = some p → p.1 = left) : CacheOK w0 ⟨be, id, rdb, aof⟩ (dOf id left) := by
+theorem dOf_holds (be : Backend) (id : Id) (rdb : Option (Int × Int)) (aof : Option (Int × Int)) (left : Int)
+    (h : ∀ p, rdb = some p → p.1 = left) : Holds w0 id ⟨be, id, rdb, aof⟩ (dOf id left) := by
   constructor
   · cases aof with
     | none => trivial
@@ -367,6 +359,11 @@ theorem dOf_ok (be : Backend) (id : Id) (rdb : Option (Int × Int)) (aof : Optio
     | none => trivial
     | some p => obtain ⟨l, sz⟩ := p; exact ⟨(h _ rfl).symm, fun n _ _ => rfl⟩
 
+theorem dOf_ok (be : Backend) (id : Id) (rdb : Option (Int × Int)) (aof : Option (Int × Int)) (left : Int)
+    (h : ∀ p, rdb = some p → p.1 = left) : CacheOK w0 s0 ⟨be, id, rdb, aof⟩ (dOf id left) :=
+  ⟨fun e => by have := dOf_holds be id rdb aof left h; simp only at e; rw [e] at this ⊢; exact this,
+   fun e => Or.inl (by have := dOf_holds be id rdb aof left h; simp only at e; rw [e] at this ⊢; exact this)⟩
+
 -- A. stored under the previous id inside the cached log, cache under the previous
 --    id and short of the switch offset: PSYNC [2] 91 is granted, the reader
 --    starts at the stored offset 80, the cache is relabelled [1].
@@ -374,7 +371,7 @@ def spA : SP := ⟨[2], 80⟩
 def cA : Cache := ⟨.memory, [2], none, some (60, 90)⟩
 example : CacheWF cA := by refine ⟨?_, ?_, ?_, ?_⟩ <;> simp [cA, maxInt64, qId]
 example : StoredCompat s0 spA cA := by unfold StoredCompat; decide
-example : CacheOK w0 cA (dOf [2] 0) := dOf_ok _ _ _ _ _ (by intro p h; cases h)
+example : CacheOK w0 s0 cA (dOf [2] 0) := dOf_ok _ _ _ _ _ (by intro p h; cases h)
 example : (run w0 s0 spA cA (dOf [2] 0)).reader = .aof 80 ∧
     (run w0 s0 spA cA (dOf [2] 0)).mt.ps.reqId = [2] ∧ (run w0 s0 spA cA (dOf [2] 0)).mt.ps.wireOff = 91 ∧
     (run w0 s0 spA cA (dOf [2] 0)).mt.ps.full = false ∧ (run w0 s0 spA cA (dOf [2] 0)).mt.runId = [1] ∧
@@ -419,7 +416,7 @@ example : (run w0 s0 spD cD (dOf [9] 0)).reader = .aof 170 ∧ (run w0 s0 spD cD
     reachable is the combination with a target that really holds the previous
     history beyond the switch offset (`reach_safe`). -/
 theorem storedCompat_needed :
-    ∃ (sp : SP) (c : Cache) (d : CData), SourceWF s0 ∧ CacheWF c ∧ CacheOK w0 c d ∧ Agree w0 s0 ∧
+    ∃ (sp : SP) (c : Cache) (d : CData), SourceWF s0 ∧ CacheWF c ∧ CacheOK w0 s0 c d ∧ Agree w0 s0 ∧
       ¬ StoredCompat s0 sp c ∧ (run w0 s0 sp c d).reader = .aof sp.offset ∧
       (run w0 s0 sp c d).mt.ps.full = false ∧
       ∃ n, 0 ≤ n ∧ n < sp.offset ∧ w0.hist sp.runId n ≠ w0.hist s0.id1 n := by
@@ -446,7 +443,7 @@ theorem storedCompat_needed :
     target's data ends, that data is a prefix of the current history, and the
     bytes delivered are the current history's from there on. -/
 theorem continues_what_the_target_holds (w : World) (s : Source) (t : Tgt) (c : Cache) (d : CData)
-    (hs : SourceWF s) (hc : CacheWF c) (hok : CacheOK w c d) (hag : Agree w s)
+    (hs : SourceWF s) (hc : CacheWF c) (hok : CacheOK w s c d) (hag : Agree w s)
     (htr : Truthful w s t c) (start : Int) (byte : Int → UInt8)
     (h : (run w s t.stored c d).delivery = .stream start byte) :
     start = t.stored.offset ∧
@@ -467,7 +464,7 @@ theorem continues_what_the_target_holds (w : World) (s : Source) (t : Tgt) (c : 
     cache went on storing. In particular after FULLRESYNC and after an
     interrupted snapshot replay no position is left that could be continued. -/
 theorem truthful_preserved (resume : Bool) (w : World) (s : Source) (t : Tgt) (c : Cache) (d : CData)
-    (hs : SourceWF s) (hc : CacheWF c) (hok : CacheOK w c d) (hag : Agree w s)
+    (hs : SourceWF s) (hc : CacheWF c) (hok : CacheOK w s c d) (hag : Agree w s)
     (htr : Truthful w s t c) (done : Bool) (e k : Int) :
     Truthful w s (step resume w s t c d done e) (cacheAfter (run w s t.stored c d).mt k) := by
   have hq1 : qId ≠ s.id1 := fun x => hs.id1_nq x.symm
@@ -570,20 +567,26 @@ theorem truthful_forget (w : World) (s : Source) (sp' : SP) (tr : Truth) (c : Ca
     source changes, cache losses / replacements and lost positions: the
     hypotheses of the single-connection theorems hold in every reachable state. -/
 theorem reach_inv (w : World) (σ : Sys) (h : Reach w σ) :
-    SourceWF σ.s ∧ Agree w σ.s ∧ CacheWF σ.c ∧ CacheOK w σ.c σ.d ∧ Truthful w σ.s σ.t σ.c := by
+    SourceWF σ.s ∧ Agree w σ.s ∧ CacheWF σ.c ∧ CacheOK w σ.s σ.c σ.d ∧ Truthful w σ.s σ.t σ.c := by
   induction h with
   | init s be hs hag =>
-    exact ⟨hs, hag, ⟨trivial, trivial, trivial, fun _ => ⟨rfl, rfl⟩⟩, ⟨trivial, trivial⟩, truthful_initially w s hs _⟩
+    exact ⟨hs, hag, ⟨trivial, trivial, trivial, fun _ => ⟨rfl, rfl⟩⟩,
+      ⟨fun _ => ⟨trivial, trivial⟩, fun _ => Or.inl ⟨trivial, trivial⟩⟩, truthful_initially w s hs _⟩
   | conn σ resume done e k _ hk hb ih =>
     obtain ⟨hs, hag, hc, hok, htr⟩ := ih
     obtain ⟨a, b, _⟩ := cache_consistent_after w σ.s σ.t.stored σ.c σ.d hs hc hok hag k hk hb _ rfl
     exact ⟨hs, hag, a, b, truthful_preserved resume w σ.s σ.t σ.c σ.d hs hc hok hag htr done e k⟩
   | same σ s' _ hs' hag' h1 h2 ih =>
     obtain ⟨_, _, hc, hok, htr⟩ := ih
-    exact ⟨hs', hag', hc, hok, truthful_same_ids w σ.s s' σ.t σ.c htr h1 h2⟩
-  | change σ s' _ hs' hag' h1 h2 h3 ih =>
+    exact ⟨hs', hag', hc, ⟨fun e => by rw [h1] at e ⊢; exact hok.cur e, fun e => by rw [h1, h2] at *; exact hok.prev e⟩,
+      truthful_same_ids w σ.s s' σ.t σ.c htr h1 h2⟩
+  | change σ s' _ hs' hag' h1 h2 h3 h4 ih =>
     obtain ⟨_, _, hc, hok, htr⟩ := ih
-    exact ⟨hs', hag', hc, hok, truthful_source_change w σ.s s' σ.t σ.c htr h1 h2 h3⟩
+    refine ⟨hs', hag', hc, ⟨fun e => absurd e.symm h2, fun e => ?_⟩, truthful_source_change w σ.s s' σ.t σ.c htr h1 h2 h3⟩
+    have e1 := h4 e.symm
+    left
+    rw [← e, e1]
+    exact hok.cur e1
   | cache σ c' d' _ hc' hok' hl ih =>
     obtain ⟨hs, hag, _, _, htr⟩ := ih
     exact ⟨hs, hag, hc', hok', truthful_cache_change w σ.s σ.t σ.c c' htr hl⟩
@@ -608,8 +611,8 @@ theorem reach_safe (w : World) (σ : Sys) (h : Reach w σ) (start : Int) (byte :
     state: an empty cache already labelled with the current id, bookkeeping untouched. -/
 theorem reach_after_failed_meta (w : World) (σ : Sys) (h : Reach w σ) :
     Reach w ⟨σ.s, σ.t, ⟨σ.c.backend, σ.s.id1, none, none⟩, CData.empty⟩ :=
-  Reach.cache σ _ _ h ⟨trivial, trivial, trivial, fun _ => ⟨rfl, rfl⟩⟩ ⟨trivial, trivial⟩
-    (fun _ => Or.inr ⟨rfl, rfl⟩)
+  Reach.cache σ _ _ h ⟨trivial, trivial, trivial, fun _ => ⟨rfl, rfl⟩⟩
+    ⟨fun _ => ⟨trivial, trivial⟩, fun _ => Or.inl ⟨trivial, trivial⟩⟩ (fun _ => Or.inr ⟨rfl, rfl⟩)
 
 /-! ### non-vacuity of `Reach` / `reach_safe`: empty target and cache, FULLRESYNC at
     200 replayed to the end (the cache stores 30 more bytes), the source moves on to
@@ -654,7 +657,7 @@ theorem snapshot_not_behind (w : World) (s : Source) (sp : SP) (c : Cache) (d : 
   · rw [hF.full] at hf; cases hf
   · rcases hK.read with ⟨_, hdel, _⟩ | ⟨l', s', _, hlt, _, hdel⟩
     · rw [hdel] at h; cases h
-    · rw [hdel] at h; cases h; exact hlt
+    · rw [hdel] at h; cases h; exact hlt.imp id And.right
   · rw [hC.delivery] at h; cases h
 
 /-- `StoredCompat` is NOT an invariant: in in-memory mode a granted continuation
